@@ -498,6 +498,35 @@ func genC13w(g *Gen) {
 		g.Do("bitmap.Next/held", L(c13Rle(bm), L(qs...)), key)
 	}
 
+	// (W3b) siblings: the same query on a bitmap and, next, on the bitmap with the answering 1-bit
+	// cleared - same length, same (i, end), mostly the same words, a different answer
+	for k, ns := 0, g.N(200, 4000); k < ns; k++ {
+		bm, marks := c13wBitmap(g, g.R.Range(1, 4), func(int) int { return g.R.Intn(5) }, g.R.Intn(3))
+		i, e := c13wRange(g, bm, marks, nil)
+		first, last := -1, -1
+		for p := i; p < e; p++ {
+			if c13Bit(bm, p) {
+				if first < 0 {
+					first = p
+				}
+				last = p
+			}
+		}
+		if first < 0 {
+			continue
+		}
+		g.Stat("siblings")
+		w := c13Rle(bm)
+		g.Do("bitmap.NextOne/sparse", L(w, Int(i), Int(e)), c13wKey(true, bm, i, e))
+		b2 := append([]uint64{}, bm...)
+		b2[first>>6] &^= 1 << (uint(first) & 63)
+		g.Do("bitmap.NextOne/sparse", L(c13Rle(b2), Int(i), Int(e)), "sib/"+c13wKey(true, b2, i, e))
+		g.Do("bitmap.PrevOne/sparse", L(w, Int(i), Int(e)), c13wKey(false, bm, i, e))
+		b3 := append([]uint64{}, bm...)
+		b3[last>>6] &^= 1 << (uint(last) & 63)
+		g.Do("bitmap.PrevOne/sparse", L(c13Rle(b3), Int(i), Int(e)), "sib/"+c13wKey(false, b3, i, e))
+	}
+
 	// (W4) walking ranges / the whole bitmap, (W5) duality
 	iter := func(bm []uint64, i, e int, bucket string) {
 		n := 64 * len(bm)
